@@ -243,6 +243,6 @@ EXTRA["C08"] = EXTRA.get("C08", []) + [
     M("coin-type-regtest", "hd.py", "        if self.network == \"mainnet\":\n            coin = \"0'\"", "        if self.network in (\"mainnet\", \"regtest\"):\n            coin = \"0'\"", ["C08.22"], "regtest keys derived under coin type 0'"),
 ]
 EXTRA["C13"] = EXTRA.get("C13", []) + [
-    M("sequence-number-unsigned", "taproot.py", "    return [encode_minimal_num(sequence), 0xB2, 0x75]", "    return [int_to_little_endian(sequence, (sequence.bit_length() + 7) // 8), 0xB2, 0x75]", ["C13.18"],
+    M("sequence-number-unsigned", "taproot.py", "    return [encode_minimal_num(sequence), 0xB2, 0x75]", "    return [int(sequence).to_bytes((sequence.bit_length() + 7) // 8, \"little\"), 0xB2, 0x75]", ["C13.18"],
       "relative timelock pushed without the sign byte"),
 ]
